@@ -1046,9 +1046,36 @@ func TestC18(t *testing.T) {
 		}
 	})
 
+	// (E2) modulemeta on fixed overload sets: the list is ordered by name, then
+	// by arity as a number (the expectation sorts (name, arity) pairs)
+	for i, sigs := range [][]sig{
+		{{"f", 0}, {"f", 2}, {"f", 10}, {"g", 1}},
+		{{"f", 10}, {"g", 1}, {"f", 2}, {"f", 0}},
+		{{"f", 12}, {"f", 11}, {"f", 9}, {"f", 1}, {"f", 10}, {"f", 3}},
+		{{"fa", 0}, {"f_", 0}, {"f", 1}, {"f1", 2}, {"F", 3}, {"ff", 10}, {"ff", 9}, {"f", 10}, {"f", 2}},
+		{{"g0", 2}, {"g", 12}, {"g", 2}, {"g", 0}, {"g0", 11}},
+	} {
+		if !rec.Mine(i) {
+			continue
+		}
+		f := fileSpec{Path: "L0/m.jq"}
+		for _, s := range sigs {
+			f.Defs = append(f.Defs, overloadDef(s.Name, s.Arity))
+		}
+		mc := metaCase{Tree: treeCase{Mode: "lib", Paths: []string{"L0"}, Files: []fileSpec{f}, Query: []expr{{K: "lit", S: "x"}}}, Name: "m"}
+		rec.Eval()
+		rec.Class("meta/fixed-overload-sets")
+		b, _ := json.Marshal(mc)
+		rec.NT("meta/" + string(b))
+		if msg := checkMeta(mc); msg != "" {
+			rec.Direct("meta", mc, "%s", msg)
+		}
+	}
+
 	// (R3) modulemeta
 	rec.Rapid(t, "meta", rec.Scale(10000, 100000), func(t *rapid.T) {
 		c := genTree(t, genLayoutLib(t), flags())
+		addOverloads(t, &c)
 		m := newModel(&c)
 		// names reachable through the search paths alone, plus a missing one
 		var names []string
@@ -1083,6 +1110,15 @@ func TestC18(t *testing.T) {
 			}
 			if n > 1 {
 				rec.Class("meta/two-or-more-candidate-files")
+			}
+			clash, prefix := digitClash(f)
+			if clash {
+				rec.Class("meta/one-name-at-arity-2..9-and->=10")
+				b, _ := json.Marshal(mc)
+				rec.NT("meta/" + string(b))
+			}
+			if prefix {
+				rec.Class("meta/name-is-prefix-of-another")
 			}
 		} else {
 			rec.Class("meta/no-such-module")
